@@ -23,8 +23,7 @@ fn c13_call_contract(p: usize) {
     model::with_contract(&gw(), || {
         <AxelarGateway as AxelarGatewayMessagingInterface>::call_contract(env.clone(), caller.clone(), chain.clone(), addr.clone(), payload.clone())
     });
-    kani::assert(model::auth_of(&caller), "VERIF:C13:outbound call only with the sender's authorisation");
-    kani::assert(model::auth_of(&caller), "VERIF:C07:a cross-chain call is sent as an address only with that address's authorisation");
+    kani::assert(model::auth_of(&caller), "VERIF:C13,C07:a cross-chain call is announced as an address only with that address's authorisation");
     kani::assert(model::events_len() == 1, "VERIF:C13:exactly one announcement");
     kani::assert(model::event_contract(0) == gw(), "VERIF:C13:announcement is published by the gateway");
     let want = model::topics_of(&(Symbol::new(&env, "contract_called"), caller.clone(), chain.clone(), addr.clone(), BytesN::<32>::from_array(&env, &spec_hash)));
@@ -36,38 +35,32 @@ fn c13_call_contract(p: usize) {
 }
 // HARNESS props=C13,C07 tier=quick profile=gw_c13 shape="payload 0 bytes; strings <=2 symbolic bytes; 3 principals"
 #[kani::proof]
-#[kani::unwind(98)]
 fn c13_call_contract_p0() {
     c13_call_contract(0)
 }
 // HARNESS props=C13 tier=quick profile=gw_c13 shape="payload 1 byte"
 #[kani::proof]
-#[kani::unwind(98)]
 fn c13_call_contract_p1() {
     c13_call_contract(1)
 }
 // HARNESS props=C13 tier=quick profile=gw_c13 shape="payload 32 bytes"
 #[kani::proof]
-#[kani::unwind(98)]
 fn c13_call_contract_p32() {
     c13_call_contract(32)
 }
 // HARNESS props=C13 tier=quick profile=gw_c13 shape="payload 31 bytes"
 #[kani::proof]
-#[kani::unwind(98)]
 fn c13_call_contract_p31() {
     c13_call_contract(31)
 }
 // HARNESS props=C13 tier=quick profile=gw_c13 shape="payload 33 bytes"
 #[kani::proof]
-#[kani::unwind(98)]
 fn c13_call_contract_p33() {
     c13_call_contract(33)
 }
 
 // HARNESS props=C13 tier=quick profile=gw_c13b shape="payload 64 bytes"
 #[kani::proof]
-#[kani::unwind(132)]
 fn c13_call_contract_p64() {
     c13_call_contract(64)
 }
@@ -116,7 +109,6 @@ fn spec_msg_hash(env: &Env, m: &Message) -> [u8; 32] {
 
 // HARNESS props=C02,C07,C16 tier=quick profile=gw_c02 shape="one delivered message, one stored approval (arbitrary other message or the same), one witness key; strings <=2 symbolic bytes"
 #[kani::proof]
-#[kani::unwind(98)]
 fn c02_validate_message_step() {
     let env = Env::default();
     any::auths();
@@ -143,7 +135,7 @@ fn c02_validate_message_step() {
         <AxelarGateway as AxelarGatewayMessagingInterface>::validate_message(
             env.clone(), caller.clone(), msg.source_chain.clone(), msg.message_id.clone(), msg.source_address.clone(), msg.payload_hash.clone())
     });
-    kani::assert(model::auth_of(&caller), "VERIF:C07:message consumed only with the destination contract's authorisation");
+    kani::assert(model::auth_of(&caller), "VERIF:C07,C02,C16:message consumed only with the destination contract's authorisation");
     let conforming = status == 1 && msg_eq(&msg, &approved_for);
     kani::assert(ok == conforming, "VERIF:C02:consumption succeeds exactly for an approved, unexecuted, exactly matching message");
     if ok {
@@ -166,7 +158,6 @@ fn c02_validate_message_step() {
 
 // HARNESS props=C02 tier=quick profile=gw_c02 shape="status queries on an arbitrary stored status"
 #[kani::proof]
-#[kani::unwind(98)]
 fn c02_queries_agree() {
     let env = Env::default();
     let msg = any_message(&env);
